@@ -159,6 +159,27 @@ func (d *Driver) waitDone(w *wcall) (result, bool) {
 	}
 }
 
+// finish lets a call that the driver no longer steers run to its end: every further source call it makes is
+// answered "unavailable"; calls of other goroutines are kept for their owners.
+func (d *Driver) finish(w *wcall) {
+	t := time.NewTimer(d.cfg.Watchdog)
+	defer t.Stop()
+	for {
+		select {
+		case <-w.done:
+			return
+		case c := <-d.sim.arrive:
+			if c.gid != w.gid {
+				d.stash = append(d.stash, c)
+				continue
+			}
+			c.reply <- reply{err: errDown}
+		case <-t.C:
+			return
+		}
+	}
+}
+
 func (d *Driver) flush(w *wcall) {
 	if w.parked != nil && w.pending != nil {
 		w.parked.reply <- *w.pending
@@ -360,7 +381,7 @@ func (d *Driver) Apply(idx int, st *Step) bool {
 					continue
 				}
 				c.reply <- reply{err: errDown}
-				<-w.done
+				d.finish(w) // the call goes on to the remaining sources: answer them all so that it returns
 				w.cancel()
 				t.Stop()
 				if st.Str == 0 {
